@@ -1,12 +1,15 @@
 import FsDb.Model.Copy
 import FsDb.Properties.C11
+import FsDb.Proofs.Refine
 /-!
 # C10 — A write that fails or is aborted leaves no trace; no-space continuation is exact
 
-Proved here: the continuation algebra (`FsDb/Model/Copy.lean`) and the stream laws it shares with
-C11.  That an error leaves no trace follows from the order of `store.Set` (content, content record,
-then the version — `Sys.set` in the refinement adds the version only in its last step; a failing
-write is an operation that does not happen) and is exercised by fault injection on the real code:
+Proved here: the continuation algebra (`FsDb/Model/Copy.lean`), the stream laws it shares with
+C11, and `C10_failed_write_no_trace`: a `store.Set` that fails at ANY of its stages (empty key,
+no directory, content copy — reader error, cancellation, no space —, fileContent record, version
+record) leaves a state in which every reader of every level reads exactly what it read before, now
+and after every later history (the refinement relation to the SAME specification state survives).
+On the real code the stages are forced by fault injection:
 source reader errors and context cancellation at every chunk boundary ±1 through the gRPC client,
 reader errors and ENOSPC (part / all-or-nothing) on every subset of 2–3 roots inline.
 -/
@@ -80,5 +83,81 @@ theorem C10_stream_complete (cs : Nat) (hcs : 0 < cs) (ps : List (List Nat)) :
     Wire.readAll (C11.writeAll cs {} ps).close = ps.flatten := (C11.C11_chunk_roundtrip cs hcs ps).1
 
 example : store false 32 false (List.range 100) [50, 70, 1000] = some (List.range 100) := by decide
+
+
+/-! ### a failed write leaves no trace -/
+open FsDb Sys Spec
+
+/-- how far a failing `store.Set` got before the error (`internal/usecase/store/set.go`) -/
+inductive FailStage
+  | early           -- empty key, `dir.Get`, the content copy: nothing persistent is recorded
+                    -- (a partial content file may lie in a storage root under a fresh name)
+  | contentRecord   -- `cfRepo.Store` failed: the content file exists under its fresh id, no record
+  | versionRecord   -- `fRepo.Store` (`core.Store`) failed: content file + fileContent record exist
+                    -- under the fresh id, no version was written or linked
+deriving DecidableEq, Repr
+
+/-- the state a failing Set leaves behind; only the last stage leaves something the model can see:
+    a content record under an id no version refers to -/
+def setFailed (c : Sys) (stage : FailStage) (content : Nat) : Sys :=
+  match stage with
+  | .early | .contentRecord => c
+  | .versionRecord => { c with nextCid := c.nextCid + 1, cfs := c.cfs ++ [(c.nextCid, content)] }
+
+theorem setFailed_inv {c : Sys} (i : Inv c) (stage : FailStage) (content : Nat) : Inv (setFailed c stage content) := by
+  cases stage with
+  | early => exact i
+  | contentRecord => exact i
+  | versionRecord =>
+    have hold : ∀ cid, cid < c.nextCid →
+        (setFailed c .versionRecord content).hasContent cid = c.hasContent cid := by
+      intro cid hc
+      exact hasContent_append_old [(c.nextCid, content)] (by intro p hp e; simp at hp; subst hp; simp at e; omega)
+    refine ⟨i.mainSorted, i.txSorted, i.allSorted, i.allMem, ?_, i.cidUnique, i.regIds, i.regMain, i.regSorted,
+      i.regBound, i.txsReg, i.ownAfter, i.beginNotVer, ?_, ?_, i.pendDead, ?_, i.domAll, i.domNodup, i.tagMain, i.tagTx⟩
+    · intro k v hv; obtain ⟨a, b, c', d⟩ := i.bounds k v hv; exact ⟨a, b, Nat.lt_succ_of_lt c', d⟩
+    · intro k v hv
+      have hb := (i.bounds k v hv).2.2.1
+      rw [hold v.cid hb]; exact i.stor k v hv
+    · intro p hp
+      show p.1 < c.nextCid + 1
+      have : p ∈ c.cfs ++ [(c.nextCid, content)] := hp
+      rcases List.mem_append.mp this with h | h
+      · exact Nat.lt_succ_of_lt (i.cfsBound p h)
+      · simp at h; subst h; exact Nat.lt_succ_self _
+    · intro job hj v hv; exact Nat.lt_succ_of_lt (i.pendBound job hj v hv)
+
+/-- **A failed write leaves no trace.**  Whatever stage the write reached: the refinement relation
+    to the UNCHANGED specification state holds afterwards.  Hence (`C10_failed_write_reads`) every
+    read by anybody returns what it returned before, and (`C10_failed_write_later`) every later
+    history answers what it would have answered had the failed write never been attempted. -/
+theorem C10_failed_write_no_trace {c : Sys} {s : State} (h : R c s) (stage : FailStage) (content : Nat) :
+    R (setFailed c stage content) s := by
+  have i' := setFailed_inv h.inv stage content
+  cases stage with
+  | early => exact h
+  | contentRecord => exact h
+  | versionRecord => exact h.transfer i' rfl rfl rfl rfl rfl
+
+theorem C10_failed_write_reads {c : Sys} {s : State} (h : R c s) (stage : FailStage) (content : Nat) (t : Nat) (k : Key) :
+    (setFailed c stage content).get t k = c.get t k ∧ (setFailed c stage content).getKeys t = c.getKeys t := by
+  have h' := C10_failed_write_no_trace h stage content
+  exact ⟨by rw [get_eq h', get_eq h], by rw [getKeys_eq h', getKeys_eq h]⟩
+
+theorem C10_failed_write_later {c : Sys} {s : State} (h : R c s) (stage : FailStage) (content : Nat)
+    (ops : List Op) (hops : ∀ op ∈ ops, op.core = true) :
+    ((setFailed c stage content).run ops).2 = (Spec.run s ops).2 :=
+  (Refine.run (C10_failed_write_no_trace h stage content) ops hops).1
+
+/-- … in particular in every reachable state, compared with the run without the failed write -/
+theorem C10_failed_write_invisible (pre post : List Op) (hpre : ∀ op ∈ pre, op.core = true)
+    (hpost : ∀ op ∈ post, op.core = true) (stage : FailStage) (content : Nat) :
+    ((setFailed (({} : Sys).run pre).1 stage content).run post).2 = ((({} : Sys).run pre).1.run post).2 := by
+  have hR := (Refine.run R.init pre hpre).2
+  rw [C10_failed_write_later hR stage content post hpost, (Refine.run hR post hpost).1]
+
+/-- non-vacuity: a write that failed after its content record was stored; the key keeps its value -/
+example : ((setFailed (({} : Sys).run [.set 0 "k" 1]).1 .versionRecord 7).run [.get 0 "k", .keys 0, .set 0 "k" 2, .get 0 "k"]).2
+    = [.val 1, .keys ["k"], .ok, .val 2] := by decide
 
 end FsDb.C10
